@@ -73,8 +73,13 @@ func runC04(r *simkit.Run) {
 	w.fl = []flavour{flCore, flGnosis, flService}[c.Weighted([]int{2, 1, 1}, "flavour")]
 	cw := &c04World{w: w, ek: map[uint64]*testkeygen.EonKeys{}, member: map[uint64]bool{}, recv: recv}
 	cw.st = &ref.ReceiverState{InstanceID: cInstanceID, MaxKeys: 8, Configs: map[uint64]*ref.ConfigState{}}
+	mixedIDs := c.Chance(300, "mixed-length-identities")
 	for i := 0; i < 3; i++ {
 		id := []byte(fmt.Sprintf("id-%d", i))
+		if mixedIDs {
+			// byte-wise sorted, but not sorted as numbers: leading zero bytes and unequal lengths
+			id = [][]byte{{0x00, 0x05}, {0x01, 0x00}, {0x02}}[i]
+		}
 		switch w.fl {
 		case flGnosis: // 52-byte identities (prefix + sender)
 			id = append(id, make([]byte, 52-len(id))...)
@@ -101,7 +106,13 @@ func runC04(r *simkit.Run) {
 			}
 			cw.ek[kci] = ek
 			cw.member[kci] = member
-			w.provisionConfig(nd, int64(kci), int64(kci*10), state, member, ek)
+			eonNo := int64(kci * 10)
+			if kci == 1 && c.Chance(300, "eon-number-equals-other-keyper-set-index") {
+				// eon numbers and keyper set indices are different number spaces that overlap: the
+				// (retried) key generation of set 1 may carry the number that is set 2's index
+				eonNo = 2
+			}
+			w.provisionConfig(nd, int64(kci), eonNo, state, member, ek)
 			cs := &ref.ConfigState{IsMember: member, NewestSucceeded: state == dkgSuccess, N: n, PublicKey: ek.EonPublicKey(), StoredKeys: map[string][]byte{}}
 			for i := 0; i < n; i++ {
 				cs.PublicKeyShares = append(cs.PublicKeyShares, ek.EonPublicKeyShare(i))
